@@ -504,7 +504,11 @@ func (w *inotify) handleEvent(inEvent *unix.InotifyEvent, buf *[65536]byte, offs
 			// Only if it's still a directory: by now the name may have been
 			// taken by something else (the directory renamed again, and a
 			// file created in its place).
-			err := w.register(ev.Name, watch.flags|unix.IN_ONLYDIR, true)
+			//
+			// IN_MASK_ADD because a directory that was moved here is watched
+			// already: without it the kernel replaces the mask of that watch,
+			// and drops events that happen in the directory while it does.
+			err := w.register(ev.Name, watch.flags|unix.IN_ONLYDIR|unix.IN_MASK_ADD, true)
 			if !w.sendError(err) {
 				return Event{}, false
 			}
